@@ -42,6 +42,7 @@ def parseOp (w : String) : Option Op :=
   | 'p' :: r => (String.ofList r).toNat?.map .put
   | 'w' :: r => (String.ofList r).toNat?.map .work
   | 'e' :: r => (String.ofList r).toNat?.map .work   -- work through an error path of the library: same model
+  | 'u' :: r => (String.ofList r).toNat?.map .work   -- set_userdata by one owner: plain writes to the node, no count change
   | _ => none
 
 def splitTail (ws : List String) : List String × List String :=
